@@ -134,24 +134,21 @@ def forbidden_scan():
     return hits
 
 
-def print_assumptions(pid, theorems, workdir):
-    """theorems: list of (module, [names]). Returns list of dicts {name, module, ok, assumptions}."""
-    lines = []
-    flat = []
-    for mod, names in theorems:
-        lines.append("From VF Require %s." % mod)
-        for n in names:
-            flat.append((mod, n))
-    for mod, n in flat:
-        lines.append('Print Assumptions %s.%s.' % (mod, n))
-    path = os.path.join(workdir, "assume_%s.v" % pid)
+def _pa_chunk(pid, idx, chunk, workdir):
+    """Print Assumptions for one chunk [(module, name)] in one coqc run; falls back to one run per theorem."""
+    mods = []
+    for mod, _ in chunk:
+        if mod not in mods:
+            mods.append(mod)
+    lines = ["From VF Require %s." % m for m in mods] + ["Print Assumptions %s.%s." % mn for mn in chunk]
+    path = os.path.join(workdir, "assume_%s_%d.v" % (pid, idx))
     open(path, "w").write("\n".join(lines) + "\n")
     rc, out = sh(["coqc", "-R", os.path.join(COQ, "theories"), "VF", path], cwd=workdir, timeout=600)
     res = []
     if rc != 0:
-        # find out which theorem is missing: try them one by one per module
-        for mod, n in flat:
-            p1 = os.path.join(workdir, "assume1_%s.v" % pid)
+        # find out which theorem is missing: try them one by one
+        for k, (mod, n) in enumerate(chunk):
+            p1 = os.path.join(workdir, "assume1_%s_%d_%d.v" % (pid, idx, k))
             open(p1, "w").write("From VF Require %s.\nPrint Assumptions %s.%s.\n" % (mod, mod, n))
             rc1, out1 = sh(["coqc", "-R", os.path.join(COQ, "theories"), "VF", p1], cwd=workdir, timeout=600)
             res.append(parse_one_assumption(mod, n, out1) if rc1 == 0 else
@@ -160,12 +157,24 @@ def print_assumptions(pid, theorems, workdir):
     # split the output into one block per Print Assumptions
     blocks = re.split(r"(?m)^(?=Closed under the global context|Axioms:)", out)
     blocks = [b for b in blocks if b.strip()]
-    for (mod, n), b in zip(flat, blocks):
+    for (mod, n), b in zip(chunk, blocks):
         res.append(parse_one_assumption(mod, n, b))
-    if len(blocks) != len(flat):
-        for mod, n in flat[len(blocks):]:
+    if len(blocks) != len(chunk):
+        for mod, n in chunk[len(blocks):]:
             res.append({"name": n, "module": mod, "ok": False, "assumptions": ["<no Print Assumptions output>"]})
     return res
+
+
+def print_assumptions(pid, theorems, workdir):
+    """theorems: list of (module, [names]). Returns list of dicts {name, module, ok, assumptions}, in order.
+    Print Assumptions walks the whole dependency cone of a theorem (seconds each on the deep developments), so the
+    list is cut into chunks that are checked side by side."""
+    flat = [(mod, n) for mod, names in theorems for n in names]
+    size = 4
+    chunks = [flat[k:k + size] for k in range(0, len(flat), size)]
+    with cf.ThreadPoolExecutor(max_workers=min(len(chunks), os.cpu_count() or 4) or 1) as ex:
+        parts = list(ex.map(lambda ic: _pa_chunk(pid, ic[0], ic[1], workdir), enumerate(chunks)))
+    return [r for part in parts for r in part]
 
 
 def parse_one_assumption(mod, n, out):
@@ -574,7 +583,7 @@ def main(argv):
         "property_id": pid, "tier": tier, "seed": seed, "level": cfg.get("level", "proof"),
         "coverage": {
             "obligations": obligations, "discharged": discharged,
-            "checker_cmd": "make -C coq (coqc 8.16.1, full .vo build) ; coqc work/%s/assume_%s.v (Print Assumptions) ; coqc work/%s/cases_*.v (vm_compute)" % (pid, pid, pid),
+            "checker_cmd": "make -C coq (coqc 8.16.1, full .vo build) ; coqc work/%s/assume_%s_*.v (Print Assumptions, in chunks) ; coqc work/%s/cases_*.v (vm_compute)" % (pid, pid, pid),
             "trusted_base": BASE_TRUSTED + cfg.get("trusted", []),
             "theorems": [{"name": "%s.%s" % (t["module"], t["name"]), "checked": t["ok"],
                           "assumptions": t["assumptions"] or "Closed under the global context"} for t in thms],
